@@ -20,6 +20,7 @@ class World:
         self.functions: list = []
         self.models: list = []
         self.tensors: list = []
+        self.last_passed: list = []  # nodes the last op handed to a graph's add / sort method
         self._index: dict[int, tuple[str, int]] = {}
         self._ident: dict[int, int] = {}
         self._ident_keep: list = []
